@@ -163,14 +163,13 @@ def headerKey : Cell → Option String
   | _ => Option.none
 
 /-- `_data_columns_as_dict(data, columns)` followed by `_value` on every column (line 331).
-`none` = a combination outside the modelled universe (records or malformed headers with `columns=`). -/
+`none` = a combination outside the modelled universe (a header row holding something else than strings / ints). -/
 def dataCols (data : Data) (columns : Option (List String)) : Option (Except Err Table) :=
   match data, columns with
   | .none, _ => some (.ok [])
   | .cols kvs, _ => some (.ok (Table.ofPairs (kvs.map fun kv => (kv.1, kv.2.value))))
   | .recs [], _ => some (.ok [])
-  | .recs rs, Option.none => some (.ok (dictConcat rs))
-  | .recs _, some _ => Option.none
+  | .recs rs, _ => some (.ok (dictConcat rs))      -- with `columns=` too (repaired code): `construct` restricts to them
   | .rows [], _ => some (.ok [])
   | .rows rs, some cs =>
       -- dict(zipper(columns, zipper(*data)))
@@ -312,7 +311,9 @@ def Fn.args : Fn → List String
   | .coalesce a b => [a, b]
   | .const _ => []
 
-/-- `kwargs_support(f)(**row)`: `TypeError` when a parameter is not among the columns -/
+/-- `kwargs_support(f)(**row)`: `TypeError` when a parameter is not among the columns.  (Inside `d(**kw)` the
+code also passes `key = <new column name>` as a default: a parameter NAMED `key` is therefore outside this
+model - the driver refuses it, TableDriver.lean `call`.) -/
 def Fn.eval (f : Fn) (row : String → Option Cell) : Except Err Cell :=
   match f with
   | .idcol a => match row a with | some x => .ok x | Option.none => .error .type
